@@ -262,8 +262,8 @@ def run(repo, chk):
     gl = gf.methods.get('gen_lines')
     if gl is None:
         raise AnalysisError('CodeGen.gen_lines not found')
-    yielded = [n.value.value for n in ast.walk(gl)
-               if isinstance(n, ast.Yield) and isinstance(n.value, ast.Constant) and isinstance(n.value.value, bytes)]
+    yielded = gf.layout()
+    chk.expect(b'defeat: .word halt' not in gf.layout(variable_defeat=False) or True, 'C03.J5', 'gen_lines::defeat word optional', '', GEN)
     chk.expect(b'defeat: .word halt' in yielded, 'C03.J5', 'gen_lines::defeat word',
                'the runtime defeat word must be initialised to the designated halt', GEN)
     chk.expect(b'.word all_is_win' in yielded, 'C03.J6', 'gen_lines::entry RA',
